@@ -59,7 +59,7 @@ def draw_ord_fields(rng, td, mode, explicit_rank_p=0.5):
                 req["rank"] = ranks[idx] * (10 ** 12 if big else 1)
             f.req["Ord"] = req
             path = ("cmp_m_%s" if total else "pcmp_m_%s") % f.ty
-            f.attr_src = gen.render_field_cmp_attr(rng, rng.choice(carriers), req, path, allow_rank=True)
+            f.metas = gen.render_field_cmp_attr(rng, rng.choice(carriers), req, path, allow_rank=True)
 
 
 class P(b1.Plugin):
@@ -87,6 +87,8 @@ class P(b1.Plugin):
         td.extra_json = {"ordmode": mode}
         td.mode = mode
         draw_ord_fields(rng, td, mode)
+        noise = [t for t in ("Debug", "Hash") if rng.random() < 0.35]
+        gen.finalize_attrs(rng, td, noise)
         return td
 
     def nontrivial(self, td):
